@@ -6,13 +6,13 @@ ID = "C13"
 ML = "mC13"
 HARNESS = "harness/C13.c"
 SRCS = None
-EXCLUDE = ["renderbuffer.c"]
+EXCLUDE = ["renderbuffer.c", "mockterm.c"]   # both are #included by the harness
 DRIVER_PARTS = ["rb_common.ml", "drv_C13.ml"]
 LEVEL = "proof"
 CASE_TIMEOUT = 0.3
 RULE = ("case = buffer size + drawing program with copyrect (cp) / moverect (mv) / blit ops and dump points; observation as "
         "for C03 (auxiliary state incl. the saved-state stack, raw span grid, inspection-API view).  Exhaustive part: on a "
-        "2x6 buffer, for each of 9 prepared contents (text runs split by later overwrites, double-width characters cut in "
+        "2x6 buffer (and a 4x5 buffer, 2 contents, for the vertical and diagonal overlaps), for each of 9 prepared contents (text runs split by later overwrites, double-width characters cut in "
         "half, erase / skip / line / char runs, a mask, a clip, line cells at the destination), EVERY source rectangle "
         "inside the buffer paired with EVERY destination position that keeps the rectangle inside the buffer, for cp and "
         "mv, nested in a caller `save' with a changed pen, dumped before and after the caller's `restore'.  Random part: "
@@ -63,9 +63,19 @@ def gen(tier, seed, info):
                 dh, dw = [(pr[2], pr[3]), (1, 1), (L, C), (pr[2] + 1, max(1, pr[3] - 1))][(n // 2) % 4]
                 pr2 = (pr[0], pr[1], dh, dw) + pr[4:]
                 yield rbgen.case_line(L, C, bg + ["sv", "pen " + pen, op + " %d %d %d %d %d %d %d %d" % pr2, "D", "rs", "D"])
+    # taller buffer: every pair on 4x5 (all vertical / diagonal overlaps, upward and downward)
+    tall = [["txa 0 0 41.42.43.44.45", "txa 1 0 61.62.63.64.65", "txa 2 0 ff21.78.79", "era 3 0 5", "cha 1 2 7a", "hl 3 1 3 1 3"],
+            ["pen f1", "txa 0 1 70.71.72", "pen b2", "era 1 0 3", "vl 0 3 4 2 3", "txa 2 0 6b.6c", "txa 3 2 6d.6e.6f", "ska 1 1 1"]]
+    m = 0
+    for bg in tall:
+        for pr in rect_pairs(4, 5):
+            m += 1
+            op = "mv" if m % 3 else "cp"
+            yield rbgen.case_line(4, 5, bg + ["sv", "pen " + ["-", "f5", "b3B1"][m % 3], op + " %d %d %d %d %d %d %d %d" % pr, "D", "rs", "D"])
+    n += m
     info["exhaustive"] = True
     info["exhaustive_scope"] = ("every (source rectangle, destination position) pair inside a 2x6 buffer x {cp, mv} x %d prepared contents, "
-                                "nested in a caller save" % len(BACKGROUNDS))
+                                "and inside a 4x5 buffer x 2 contents, nested in a caller save" % len(BACKGROUNDS))
     info["exhaustive_cases"] = n
     nrand = 3000 if tier == "quick" else 150000
     kinds = {}
